@@ -6,9 +6,7 @@ KEY = '|e: T| e.spec_rank()'
 ACC = '|e: T| e.spec_accessed()'
 
 
-def build(u):
-    u.prelude('std_vec.rs')
-    u.prelude('clock.rs')
+def weave_planner(u, SERVES=SERVES):
     u.text('pub mod second_chance {\nuse super::*;\n')
 
     # --- trait Entry: spec twins of the two observers (insertions only) -------------------
@@ -83,4 +81,11 @@ def build(u):
                       '            assert(plan_is_second_chance(s0, capacity as nat, %s, %s, to_evict@, to_move_back@));\n'
                       '        }\n        ' % (KEY, KEY, ACC))
     u.text('} // mod second_chance\n')
+    return new
+
+
+def build(u):
+    u.prelude('std_vec.rs')
+    u.prelude('clock.rs')
+    weave_planner(u)
     return u
